@@ -174,4 +174,12 @@ def r4_regeneration_literals(a, tier):
     return rep
 
 
-RULES = [r1_ebnf_vs_parser, r2_ebnf_vs_model, r3_config, r4_regeneration_literals]
+def r5_regeneration_config(a, tier):
+    """regenerating the bootstrap parser: the configuration written into the regenerated source is the grammar's (decided as in C02.R7)"""
+    from .c02 import r7_generated_configuration
+    rep = r7_generated_configuration(a, tier, rule_id='C15.R5')
+    rep.text = 'regenerating the shipped parser from tatsu/_tatsu.ebnf (which sets none of whitespace/nameguard/namechars): ' + rep.text
+    return rep
+
+
+RULES = [r1_ebnf_vs_parser, r2_ebnf_vs_model, r3_config, r4_regeneration_literals, r5_regeneration_config]
